@@ -364,6 +364,10 @@ impl<S: BitmapSlice + Send + Sync> PassthroughFs<S> {
         } else {
             None
         };
+        // A sealed file must keep its size: O_TRUNC would cut it to 0.
+        if self.seal_size.load(Ordering::Relaxed) && flags & (libc::O_TRUNC as u32) != 0 {
+            return Err(eperm());
+        }
         let file = self.open_inode(inode, flags as i32)?;
         drop(killpriv);
 
@@ -773,6 +777,12 @@ impl<S: BitmapSlice + Send + Sync> FileSystem for PassthroughFs<S> {
                     };
 
                     let (_uid, _gid) = set_creds(ctx.uid, ctx.gid)?;
+                    // The file already exists: a sealed file must keep its size.
+                    if self.seal_size.load(Ordering::Relaxed)
+                        && args.flags & (libc::O_TRUNC as u32) != 0
+                    {
+                        return Err(eperm());
+                    }
                     self.open_inode(entry.inode, args.flags as i32)
                 };
                 match open_existing() {
@@ -903,6 +913,11 @@ impl<S: BitmapSlice + Send + Sync> FileSystem for PassthroughFs<S> {
 
         if self.seal_size.load(Ordering::Relaxed) {
             let st = stat_fd(&*f, None)?;
+            // With O_APPEND set on the fd, pwrite() appends at EOF whatever `offset` says, so any
+            // non-empty write would grow the file.
+            if flags & (libc::O_APPEND as u32) != 0 && size > 0 {
+                return Err(eperm());
+            }
             self.seal_size_check(Opcode::Write, st.st_size as u64, offset, size as u64, 0)?;
         }
 
